@@ -57,6 +57,66 @@ func storeName(i int) string { return fmt.Sprintf("st%d", i) }
 // Gen makes a program. Shapes are chosen so that new stores, first roots, splits, node removals, fetched-only
 // nodes and multi-store commits are all common.
 func Gen(p *hx.Prng) Program {
+	switch p.Intn(6) {
+	case 0:
+		return genRemoveHeavy(p)
+	case 1:
+		return genReadWrite(p)
+	}
+	return genMixed(p)
+}
+
+// genRemoveHeavy: a slot-2 tree filled in ascending order (many sparsely filled leaves), then a transaction that
+// removes runs of neighbouring keys so that leaves empty out and nodes are removed.
+func genRemoveHeavy(p *hx.Prng) Program {
+	pr := Program{Slot: []int{2}, Exists: []bool{true}}
+	n := 8 + p.Intn(10)
+	var ops []Op
+	for k := 0; k < n; k++ {
+		ops = append(ops, Op{0, "add", k, fmt.Sprintf("v%d", k)})
+	}
+	if p.Chance(1, 2) {
+		h := len(ops) / 2
+		pr.Setup = [][]Op{ops[:h], ops[h:]}
+	} else {
+		pr.Setup = [][]Op{ops}
+	}
+	start := p.Intn(n - 3)
+	cnt := 2 + p.Intn(4)
+	for k := start; k < start+cnt && k < n; k++ {
+		pr.Target = append(pr.Target, Op{0, "rm", k, ""})
+	}
+	if p.Chance(1, 3) {
+		pr.Target = append(pr.Target, Op{0, "add", n + 1, "w"})
+	}
+	return pr
+}
+
+// genReadWrite: reads of existing keys in some leaves (fetched-only nodes) plus a write elsewhere.
+func genReadWrite(p *hx.Prng) Program {
+	slot := []int{2, 4}[p.Intn(2)]
+	pr := Program{Slot: []int{slot}, Exists: []bool{true}}
+	n := 8 + p.Intn(8)
+	var ops []Op
+	for k := 0; k < n; k++ {
+		ops = append(ops, Op{0, "add", k * 2, fmt.Sprintf("v%d", k)})
+	}
+	pr.Setup = [][]Op{ops}
+	for j := 0; j < 1+p.Intn(3); j++ {
+		pr.Target = append(pr.Target, Op{0, "get", p.Intn(n) * 2, ""})
+	}
+	switch p.Intn(3) {
+	case 0:
+		pr.Target = append(pr.Target, Op{0, "upd", p.Intn(n) * 2, "u"})
+	case 1:
+		pr.Target = append(pr.Target, Op{0, "add", p.Intn(n)*2 + 1, "w"})
+	default:
+		pr.Target = append(pr.Target, Op{0, "rm", p.Intn(n) * 2, ""})
+	}
+	return pr
+}
+
+func genMixed(p *hx.Prng) Program {
 	var pr Program
 	ns := 1
 	if p.Chance(1, 3) {
